@@ -3,7 +3,7 @@
 use std::iter::Iterator;
 use std::slice::Iter;
 
-use crate::{FromGenericParam, FromGenerics, FromTypeParam, Result};
+use crate::{Error, FromGenericParam, FromGenerics, FromTypeParam, Result};
 
 /// Extension trait for `GenericParam` to support getting values by variant.
 ///
@@ -147,12 +147,16 @@ impl<P, W> Generics<P, W> {
 
 impl<P: FromGenericParam> FromGenerics for Generics<P> {
     fn from_generics(generics: &syn::Generics) -> Result<Self> {
-        Ok(Generics {
-            params: generics
-                .params
-                .iter()
-                .map(FromGenericParam::from_generic_param)
-                .collect::<Result<Vec<P>>>()?,
+        // Convert every parameter and report every failure, not only the first one.
+        let mut errors = Error::accumulator();
+        let params = generics
+            .params
+            .iter()
+            .filter_map(|p| errors.handle(FromGenericParam::from_generic_param(p)))
+            .collect();
+
+        errors.finish_with(Generics {
+            params,
             where_clause: generics.where_clause.clone(),
         })
     }
